@@ -228,18 +228,20 @@ Print Assumptions copy_stream_bytes.
 
 (* ---- copied values are independent of later copier activity (History.v) ------- *)
 
-(* In every history of copier calls and deferred Puts - Copy a value, do
-   anything else with the copier, Put the value later (or let the Writer defer
-   the Put while a stream is open) - what is written is the renamed argument of
-   the call that produced it (for a stream: the renamed dictionary and the
-   source's data), or a reference to an object the caller wrote itself. *)
+(* In every history of copier calls (Redirect only for references without a
+   translation) and deferred Puts - Copy a value, do anything else with the
+   copier, Put the value later (or let the Writer defer the Put while a stream
+   is open) - what is written is the renamed argument of the copy call that
+   produced it (for a stream: the renamed dictionary and the source's data), or
+   a reference to an object the caller wrote to the target itself (with Put, or
+   as the replacement given to Redirect). *)
 Theorem hist_values :
   forall src fuel ops next0 h,
     run_hist src fuel ops (hinit next0) = Ok h ->
-    forallb is_copy_op ops = true ->
+    hist_fresh src fuel ops (hinit next0) ->
     forall t v, In (t, v) (hputs h) ->
-      (exists c, In (HCall c) ops /\ renamed src (trans (hst h)) (call_obj c) v) \/
-      (exists t', v = ORef t' /\ In t' (map fst (hputs h))).
+      (exists c, In (HCall c) ops /\ is_copy_op (HCall c) = true /\ renamed src (trans (hst h)) (call_obj c) v) \/
+      (exists t', v = ORef t' /\ In t' (map fst (hputs h) ++ map fst (puts (hst h)))).
 Proof. exact HistoryProofs.hist_values. Qed.
 Print Assumptions hist_values.
 
